@@ -1195,6 +1195,30 @@ class Engine:
                        "predict(%s) gives %s but the same steps taken from predict(1..%d) are %s"
                        % (steps, C.fmt(p), max(steps), C.fmt(sub)), op="predict")
 
+        elif self.spec["kind"] == "reduce" and self.spec["strategy"] in ("direct", "multioutput") \
+                and self.refit_clean and steps != list(range(1, max(steps) + 1)) \
+                and not self.scen.get("exog"):
+            # horizon-dependent reductions learn one model (or output column) per step from the
+            # same windows: the forecast for step h is the same whether the horizon was [.., h, ..]
+            # or 1..max
+            with peers.paused():
+                try:
+                    twin = C.build(self.spec)
+                    s2 = sched.Scheduler("fifo", 0)
+                    with sched.scenario_schedule(s2):
+                        twin.fit(a.seen_series(), fh=list(range(1, max(steps) + 1)))
+                        full = twin.predict()
+                except Exception as e:  # noqa
+                    self.note("contiguous_raised", type(e).__name__)
+                    return
+            self.res.probe("gapped_vs_contiguous_checked")
+            sub = full.iloc[[s_ - 1 for s_ in steps]]
+            if not C.same_values(sub.values, p.values):
+                self.v("gapped_horizon_values",
+                       "fitted with the horizon %s the forecasts are %s; a fresh forecaster fitted on "
+                       "the same data with the horizon 1..%d gives %s for those steps"
+                       % (steps, C.fmt(p), max(steps), C.fmt(sub)), op="predict", at_fit=True)
+
     def check_c03_update_predict(self, i, outs, splits, cv_steps):
         """Labels of update_predict: forecasts for cutoff c are labelled c + step."""
         for (actor, o) in zip(self.actors(), outs):
